@@ -805,8 +805,107 @@ def check(case, _runs=3):
   return out
 
 
+# ---------------------------------------------------------------------------
+# L-BFGS-B (continuous features only; same result type as the vectorised
+# optimiser): count, unit cube, reported reward = score at the candidate,
+# padding dimensions are zero, same seed -> same result
+# ---------------------------------------------------------------------------
+def lbfgsb_strategy():
+  from hypothesis import strategies as st
+  unit = st.sampled_from([0.0, 1.0, 0.5, 0.2, 0.9, 0.37])
+  return st.fixed_dictionaries({
+      'n': st.integers(1, 5),
+      'pad_extra': st.sampled_from([0, 1, 1, 2, 3, 5]),
+      'count': st.integers(1, 3),
+      'restarts': st.sampled_from([3, 4, 6]),
+      'maxiter': st.sampled_from([3, 10]),
+      'seed': st.integers(0, 2 ** 16),
+      'centre': st.lists(unit, min_size=5, max_size=5),
+      # where the optimum sits: inside, at a corner (outside the cube), or a
+      # direction (linear score)
+      'shape': st.sampled_from(['bowl', 'bowl', 'outside', 'linear']),
+  })
+
+
+def check_lbfgsb(case):
+  from harness import boot
+  boot.init()
+  import jax
+  import jax.numpy as jnp
+  import numpy as np
+  from vizier._src.algorithms.optimizers import lbfgsb_optimizer as lo
+  from vizier._src.jax import types
+  out = core.Out()
+  n, pad = case['n'], case['n'] + case['pad_extra']
+  c = jnp.asarray(case['centre'][:n])
+  if case['shape'] == 'outside':
+    c = c * 3.0 - 1.0
+
+  def score(x, rng):
+    del rng
+    a = x.continuous.padded_array[..., :n]
+    if case['shape'] == 'linear':
+      return jnp.sum(a * (c - 0.45), axis=-1)
+    return -jnp.sum((a - c) ** 2, axis=-1)
+
+  def run():
+    opt = lo.LBFGSBOptimizer(
+        n_feature_dimensions=types.ContinuousAndCategorical(
+            jnp.array(n), jnp.array(0)),
+        n_feature_dimensions_with_padding=types.ContinuousAndCategorical(
+            pad, 0),
+        random_restarts=case['restarts'], maxiter=case['maxiter'])
+    r = opt(score, count=case['count'],
+            seed=jax.random.PRNGKey(case['seed']))
+    return (np.asarray(r.features.continuous, dtype=np.float64),
+            np.asarray(r.features.categorical), np.asarray(
+                r.rewards, dtype=np.float64))
+  try:
+    f, cat, rew = run()
+  except Exception as e:  # pylint: disable=broad-except
+    out.violate('lbfgsb/raises/%s' % type(e).__name__, repr(e)[:300])
+    return out
+  out.cls('lbfgsb', 'lbfgsb_' + case['shape'])
+  out.count(EVAL_COUNTER, 2)
+  if pad > n:
+    out.cls('lbfgsb_padded')
+  if f.shape != (case['count'], 1, pad) or rew.shape != (case['count'],):
+    out.violate('lbfgsb/count', 'features %r rewards %r for count=%d pad=%d' % (
+        f.shape, rew.shape, case['count'], pad))
+    return out
+  if cat.shape[-1] != 0:
+    out.violate('lbfgsb/categorical_not_empty', repr(cat.shape))
+  if not np.all(np.isfinite(f)) or f.min() < 0.0 or f.max() > 1.0:
+    out.violate('lbfgsb/outside_unit_cube', 'min %r max %r' % (
+        f.min(), f.max()))
+  if pad > n and np.any(f[..., n:] != 0.0):
+    out.violate('lbfgsb/padding_leak', 'padding dimensions %d..%d hold %r' % (
+        n, pad - 1, f[..., n:].tolist()))
+  for i in range(case['count']):
+    a = f[i, 0, :n]
+    if case['shape'] == 'linear':
+      want = float(np.sum(a * (np.asarray(c, dtype=np.float64) - 0.45)))
+    else:
+      want = float(-np.sum((a - np.asarray(c, dtype=np.float64)) ** 2))
+    if abs(want - rew[i]) > 1e-5 * (1.0 + abs(want)):
+      out.violate('lbfgsb/reward_mismatch', 'candidate %d %r: reported %r, '
+                  'score there %r' % (i, a.tolist(), rew[i], want))
+  try:
+    f2, _, rew2 = run()
+    if not (np.array_equal(f, f2) and np.array_equal(rew, rew2)):
+      out.violate('lbfgsb/not_deterministic', 'same seed, different result')
+  except Exception as e:  # pylint: disable=broad-except
+    out.violate('lbfgsb/raises_second_run/%s' % type(e).__name__, repr(e)[:300])
+  out.nontrivial = pad > n
+  return out
+
+
 def families(tier):
   return [
+      core.Family('lbfgsb', check_lbfgsb, strategy=lbfgsb_strategy,
+                  budget={'quick': 32, 'thorough': 600},
+                  shards={'quick': 8, 'thorough': 16},
+                  required_classes=('lbfgsb_padded', 'lbfgsb_bowl')),
       core.Family(
           'optimize', check,
           strategy=strategy_quick if tier == 'quick' else strategy_thorough,
